@@ -51,11 +51,22 @@ pub trait NanEl: MaybeNan + El {
     fn make(k: i64) -> Self;
     /// a missing value; floats have several NaN payloads
     fn missing(variant: u8) -> Self;
+    /// the harness's OWN notion of "missing" (never the library's `MaybeNan::is_nan`, which
+    /// is code under test: with the trait in scope `x.is_missing()` on a float resolves to it)
+    fn is_missing(&self) -> bool;
 }
 
 impl NanEl for f64 {
     fn make(k: i64) -> Self {
-        k as f64 * 0.5
+        match k {
+            97 => f64::INFINITY,
+            -97 => f64::NEG_INFINITY,
+            96 => -0.0,
+            _ => k as f64 * 0.5,
+        }
+    }
+    fn is_missing(&self) -> bool {
+        f64::to_bits(*self) & 0x7fff_ffff_ffff_ffff > 0x7ff0_0000_0000_0000
     }
     fn missing(variant: u8) -> Self {
         match variant % 3 {
@@ -67,7 +78,15 @@ impl NanEl for f64 {
 }
 impl NanEl for f32 {
     fn make(k: i64) -> Self {
-        k as f32 * 0.5
+        match k {
+            97 => f32::INFINITY,
+            -97 => f32::NEG_INFINITY,
+            96 => -0.0,
+            _ => k as f32 * 0.5,
+        }
+    }
+    fn is_missing(&self) -> bool {
+        f32::to_bits(*self) & 0x7fff_ffff > 0x7f80_0000
     }
     fn missing(variant: u8) -> Self {
         match variant % 3 {
@@ -82,6 +101,7 @@ macro_rules! nanel_opt_int {
         impl NanEl for Option<$t> {
             fn make(k: i64) -> Self { Some(k as $t) }
             fn missing(_variant: u8) -> Self { None }
+            fn is_missing(&self) -> bool { matches!(self, None) }
         }
     )*};
 }
@@ -93,6 +113,9 @@ impl NanEl for Option<N64> {
     fn missing(_variant: u8) -> Self {
         None
     }
+    fn is_missing(&self) -> bool {
+        matches!(self, None)
+    }
 }
 impl NanEl for Option<N32> {
     fn make(k: i64) -> Self {
@@ -100,6 +123,9 @@ impl NanEl for Option<N32> {
     }
     fn missing(_variant: u8) -> Self {
         None
+    }
+    fn is_missing(&self) -> bool {
+        matches!(self, None)
     }
 }
 
@@ -222,7 +248,7 @@ pub fn check_remove_t<T: NanEl>(c: &RemoveCase) -> CheckResult {
     let got: Vec<T> = pos.iter().map(|&p| buf[p].clone()).collect();
     for (i, g) in got.iter().enumerate() {
         ensure!(
-            !g.is_nan(),
+            !g.is_missing(),
             "wrong-value",
             "element {} of the stripped view is a missing value ({:?}); mask {:?}, stride {}, offset {}, returned buffer positions {:?}",
             i,
@@ -233,14 +259,14 @@ pub fn check_remove_t<T: NanEl>(c: &RemoveCase) -> CheckResult {
             pos
         );
     }
-    let want = multiset(data.iter().filter(|d| !d.is_nan()).cloned());
+    let want = multiset(data.iter().filter(|d| !d.is_missing()).cloned());
     let have = multiset(got.iter().cloned());
     ensure!(
         want == have,
         "wrong-value",
         "stripped view holds {:?}, the non-missing input elements are {:?} (mask {:?}, stride {}, offset {})",
         got,
-        data.iter().filter(|d| !d.is_nan()).collect::<Vec<_>>(),
+        data.iter().filter(|d| !d.is_missing()).collect::<Vec<_>>(),
         c.mask,
         c.stride,
         c.offset
@@ -281,18 +307,19 @@ pub fn check_remove_t<T: NanEl>(c: &RemoveCase) -> CheckResult {
     );
     // typed references handed out by try_as_not_nan / fold_skipnan / from_not_nan_ref_opt
     for d in data.iter() {
+        ensure!(MaybeNan::is_nan(d) == d.is_missing(), "wrong-value", "MaybeNan::is_nan({:?}) = {}, but the value {} missing", d, MaybeNan::is_nan(d), if d.is_missing() { "is" } else { "is not" });
         match d.try_as_not_nan() {
             Some(nn) => {
-                ensure!(!d.is_nan(), "wrong-value", "try_as_not_nan returned Some for the missing value {:?}", d);
+                ensure!(!d.is_missing(), "wrong-value", "try_as_not_nan returned Some for the missing value {:?}", d);
                 let back = T::from_not_nan_ref_opt(Some(nn));
                 ensure!(back.bits() == d.bits(), "wrong-value", "try_as_not_nan/from_not_nan_ref_opt round trip changed {:?} into {:?}", d, back);
                 ensure!(std::ptr::eq(back as *const T, d as *const T), "aliasing", "try_as_not_nan returned a reference to a different location");
             }
-            None => ensure!(d.is_nan(), "wrong-value", "try_as_not_nan returned None for the non-missing value {:?}", d),
+            None => ensure!(d.is_missing(), "wrong-value", "try_as_not_nan returned None for the non-missing value {:?}", d),
         }
     }
-    ensure!(T::from_not_nan_opt(None).is_nan(), "wrong-value", "from_not_nan_opt(None) is not a missing value");
-    ensure!(T::from_not_nan_ref_opt(None).is_nan(), "wrong-value", "from_not_nan_ref_opt(None) is not a missing value");
+    ensure!(T::from_not_nan_opt(None).is_missing(), "wrong-value", "from_not_nan_opt(None) is not a missing value");
+    ensure!(T::from_not_nan_ref_opt(None).is_missing(), "wrong-value", "from_not_nan_ref_opt(None) is not a missing value");
     {
         let mut b = make_buf(&data, c.offset, c.stride, 0);
         let v = view1(&mut b, c.offset, n, c.stride);
@@ -300,7 +327,7 @@ pub fn check_remove_t<T: NanEl>(c: &RemoveCase) -> CheckResult {
         let mut bad = false;
         v.fold_skipnan((), |_, nn| {
             let r = T::from_not_nan_ref_opt(Some(nn));
-            if r.is_nan() {
+            if r.is_missing() {
                 bad = true;
             }
             seen.push(r.bits());
@@ -391,7 +418,7 @@ pub fn remove_strategy(max_len: usize) -> impl Strategy<Value = RemoveCase> {
         mask,
         prop_oneof![Just(1isize), Just(2isize), Just(3isize), Just(5isize), Just(-1isize), Just(-2isize), Just(-3isize), Just(-7isize)],
         0usize..4,
-        proptest::collection::vec(any::<i8>(), 0..8),
+        proptest::collection::vec(prop_oneof![6 => any::<i8>(), 1 => Just(97i8), 1 => Just(-97i8), 1 => Just(96i8)], 0..8),
     )
         .prop_map(|(ty, mask, stride, offset, vals)| RemoveCase { ty, mask, stride, offset, vals })
 }
